@@ -193,53 +193,50 @@ def r2_resp(ctx, cfg):
     from vlib.uses import dropped_results
     ctx.ob(R, key, "verification-errors-propagate", not dropped_results(f), "a verification result is dropped: %s" % [w for b, t, w in dropped_results(f)], fn=f,
            sample="all `?`-propagated")
-    # each verify_attributes result gates progress: successor of the call leads to a switch whose Break edge returns
-    for bid, t in va:
-        tgt = cf.after_call_node(bid)
-        reach_ok = False
-        # the Ok return must be dominated by the Continue edge of this call's result (response attrs) or loop-carried (events)
-        for r in cf.return_blocks():
-            pass
-        conds_ok = False
-        for b2, i2, st in f.stmts():
-            if st["k"] == "assign" and st["dst"]["l"] == 0 and not st["dst"]["p"]:
-                o = peel(P.rvalue(f, st["rv"], (b2, i2)))
-                if o[0] == "agg" and o[1].endswith("Result::Ok"):
-                    # no path from this call's Break edge to the Ok site
-                    for sb in f.order:
-                        tt = f.blocks[sb]["term"]
-                        if tt["k"] == "switch" and "discr_of" in tt:
-                            so = peel(P.place(f, tt["discr_of"], (sb, "t")))
-                            if so[0] == "call" and so[1] == W + "verify_attributes" and so[4] == (f.key, bid):
-                                for e, v, n, tb in cf.switch_edges(sb):
-                                    if n in ("Break", "Err"):
-                                        conds_ok = not cf.can_reach(e, b2)
-        ctx.ob(R, key, "failed-attribute-check-never-reaches-Ok@%s" % ("response" if cf.dominates(bid, va[-1][0]) and bid != va[-1][0] else "event"), conds_ok,
-               "a failed verify_attributes can still reach the Ok return", fn=f, line=t["line"], sample="Break edge cannot reach Ok(response)")
-    # event type length
-    guards = []
-    for bid in f.order:
-        t = f.blocks[bid]["term"]
-        if t["k"] == "switch" and t.get("discr_ty") == "bool" and "discr_of" not in t:
-            pred, args, pol = q.norm_cond(P.operand(f, t["discr"], (bid, "t")), True)
-            guards.append((bid, t, pred, args, pol))
-    tg = [g for g in guards if g[2] == "lt"]
-    ok = len(tg) == 1 and len(guards) == 1
-    d = [(g[2], [fmt(a)[:50] for a in g[3]], g[4]) for g in guards]
+    # each verify_attributes result gates progress: its error edges lead only to error returns - never on to the next
+    # event, never to the Ok return (`?`, `if let Err(e) = .. { return Err(e) }`, try_for_each over a helper: one shape
+    # after vlib/inline.py A8-A10)
+    for idx, (bid, t) in enumerate(va):
+        a0 = peel(P.call_args(f, t, bid)[0])
+        which = "response" if (a0[0] == "field" and is_param(a0[1], "response")) else "event"
+        ef = q.error_fate(P, f, bid)
+        ok = (bool(ef["edges"]) and not ef["continues"] and not ef["ok_reachable"]) or (not ef["edges"] and ef["returned_directly"])
+        ctx.ob(R, key, "failed-attribute-check-never-reaches-Ok@%s" % which, ok,
+               "a failed verify_attributes can still reach the Ok return or the next event (error edges %d, back to the loop %s, Ok reachable %s)" % (
+                   len(ef["edges"]), ef["continues"], ef["ok_reachable"]), fn=f, line=t["line"], sample="error edges only reach error returns")
+    # event type length: exactly the trimmed types of length 0 and 1 are rejected - as `len < 2`, `!(len >= 2)`, or a
+    # `match len { 0 | 1 => Err, _ => .. }`
+    def is_ty_len(o):
+        o = peel(o)
+        return o[0] == "call" and o[1].endswith("len") and _is_trim_of(o[2][0], "ty")
+    nxt = [b for b, tt in f.calls() if tt["callee"]["name"] == "next"]
+    found = []
+    other_guards = []
+    for g0 in q.guards(P, f):
+        gb, pred, args, te, fe = g0
+        if pred == "lt" and len(args) == 2 and is_ty_len(args[0]) and peel(args[1]) == ("const", "int", 2):
+            found.append(("lt2", [te]))
+        elif pred in ("opaque", "const"):
+            continue
+        elif not any(contains(x, lambda y: y[0] == "call" and y[1].endswith("Iterator::next")) or contains(x, lambda y: y[0] == "bound") for x in args):
+            continue
+        else:
+            other_guards.append((pred, [fmt(x)[:40] for x in args]))
+    for sb in f.order:
+        tt = f.blocks[sb]["term"]
+        if tt["k"] == "switch" and "discr_of" not in tt and tt.get("discr_ty") != "bool" and len(tt["targets"]) > 1:
+            o = P.operand(f, tt["discr"], (sb, "t"))
+            if is_ty_len(o):
+                vals = sorted(v for v, bb, n in tt["targets"])
+                edges = [e for e, v, n, tb in cf.switch_edges(sb) if v is not None]
+                found.append(("match%s" % vals, edges if vals == [0, 1] else []))
+    ok = len(found) == 1 and bool(found[0][1])
     if ok:
-        bid, t, pred, args, pol = tg[0]
-        lo, hi = peel(args[0]), peel(args[1])
-        ok = lo[0] == "call" and lo[1].endswith("len") and _is_trim_of(lo[2][0], "ty") and hi == ("const", "int", 2)
-        if ok:
-            err_edge = None
-            for e, v, n, tb in cf.switch_edges(bid):
-                val = True if v is None else (v != 0)
-                if val == pol:
-                    err_edge = e
-            nxt = [b for b, tt in f.calls() if tt["callee"]["name"] == "next"]
-            reach = cf.reachable_from(err_edge)
-            ok = not any(b in reach for b in nxt) and not any(_returns_ok(P, f, r) and r in reach and _ok_site_reachable(P, f, cf, err_edge) for r in cf.return_blocks())
-    ctx.ob(R, key, "event-type-shorter-than-2-rejected", ok, "verify_response guards are %s; expected exactly `ty.trim().len() < 2` -> Err" % d, fn=f,
+        for e in found[0][1]:
+            reach = cf.reachable_from(e)
+            ok = ok and not any(b in reach for b in nxt) and q.only_errors_from(P, f, e)
+    d = [x[0] for x in found] + other_guards
+    ctx.ob(R, key, "event-type-shorter-than-2-rejected", ok and not other_guards, "verify_response guards are %s; expected exactly `ty.trim().len() < 2` -> Err" % d, fn=f,
            sample="ty.trim().len() < 2 -> Err")
     # returns the response unchanged
     n = 0
